@@ -18,6 +18,9 @@ import (
 // defined, the evaluator (and Sem.v) must finish without error and every
 // declared global must have exec_l's value; whenever exec_l is undefined with
 // ample fuel, the evaluator must have failed at run time.
+// Stream sem-tie-locals does the same for lx_l, the semantics with block
+// scopes of C16_compile_correct_locals_partial, on programs of lpfrag.
+// Both are differential correspondences, not theorems.
 
 // ---------- a generator for exactly the fragment psfrag ----------
 
@@ -34,6 +37,8 @@ type fragGen struct {
 	nid      int
 	errs     bool // allow run-time errors (index out of range, zero step)
 	stmtsMax int
+	locals   bool            // lpfrag: declarations and loop variables inside blocks too
+	curDecl  map[string]bool // names declared in the block being generated
 }
 
 func (g *fragGen) line(ind int, s string) {
@@ -186,10 +191,32 @@ func (g *fragGen) rangeHdr() string {
 }
 
 func (g *fragGen) block(ind, depth int, inLoop, top bool) {
+	// a block is a scope: what it declares is gone at its end
+	ln, ls, lb, la, cd := len(g.nums), len(g.strs), len(g.bools), len(g.arrs), g.curDecl
+	g.curDecl = map[string]bool{}
 	n := 1 + g.rng.Intn(3)
 	for i := 0; i < n; i++ {
 		g.stmt(ind, depth, inLoop, top)
 	}
+	g.nums, g.strs, g.bools, g.arrs, g.curDecl = g.nums[:ln], g.strs[:ls], g.bools[:lb], g.arrs[:la], cd
+}
+
+// declName: a fresh name, or (inside a block, sometimes) the name of a visible
+// variable of the same type declared in an outer scope: a shadowing declaration
+func (g *fragGen) declName(same []string) string {
+	if g.locals && g.curDecl != nil && g.rng.Intn(3) == 0 {
+		v := g.pick(same)
+		if !g.curDecl[v] {
+			g.curDecl[v] = true
+			return v
+		}
+	}
+	g.nid++
+	v := fmt.Sprintf("d%d", g.nid)
+	if g.curDecl != nil {
+		g.curDecl[v] = true
+	}
+	return v
 }
 
 func (g *fragGen) stmt(ind, depth int, inLoop, top bool) {
@@ -245,28 +272,48 @@ func (g *fragGen) stmt(ind, depth int, inLoop, top bool) {
 		g.block(ind+1, depth+1, true, false)
 		g.line(ind, "end")
 	default:
-		if !top {
+		if !top && !g.locals {
 			g.assign(ind)
 			return
 		}
-		// top level only: a declaration or a loop with a loop variable (a global for the compiler)
+		// a declaration or a loop with a loop variable: at top level a global for the
+		// compiler, inside a block (locals mode) a local of the block's scope
 		switch g.rng.Intn(4) {
 		case 0:
-			g.nid++
-			v := fmt.Sprintf("d%d", g.nid)
+			// the parser rejects variables that are never read: a block-local one is read right away
 			switch g.rng.Intn(4) {
 			case 0:
-				g.line(ind, v+" := "+g.num(2))
+				e := g.num(2)
+				v := g.declName(g.nums)
+				g.line(ind, v+" := "+e)
 				g.nums = append(g.nums, v)
+				if !top {
+					g.line(ind, "n1 = n1 + "+v)
+				}
 			case 1:
-				g.line(ind, v+" := "+g.str(2))
+				e := g.str(2)
+				v := g.declName(g.strs)
+				g.line(ind, v+" := "+e)
 				g.strs = append(g.strs, v)
+				if !top {
+					g.line(ind, "s1 = s1 + "+v)
+				}
 			case 2:
-				g.line(ind, v+" := "+g.boolean(2))
+				e := g.boolean(2)
+				v := g.declName(g.bools)
+				g.line(ind, v+" := "+e)
 				g.bools = append(g.bools, v)
+				if !top {
+					g.line(ind, "b0 = b0 == "+v)
+				}
 			default:
-				g.line(ind, v+" := "+g.arr())
+				e := g.arr()
+				v := g.declName(g.arrs)
+				g.line(ind, v+" := "+e)
 				g.arrs = append(g.arrs, v)
+				if !top {
+					g.line(ind, "n1 = n1 + "+v+"[0]")
+				}
 			}
 		case 1, 2:
 			g.nid++
@@ -301,8 +348,10 @@ func (g *fragGen) stmt(ind, depth int, inLoop, top bool) {
 	}
 }
 
-func genFragProgram(rng *rand.Rand, errs bool) string {
-	g := &fragGen{rng: rng, errs: errs, lvTyp: map[string]string{}, stmtsMax: 6 + rng.Intn(14)}
+// genFragProgram: a program of psfrag; with locals, of lpfrag (declarations and
+// loop variables inside blocks, shadowing declarations)
+func genFragProgram(rng *rand.Rand, errs, locals bool) string {
+	g := &fragGen{rng: rng, errs: errs, locals: locals, lvTyp: map[string]string{}, stmtsMax: 6 + rng.Intn(14)}
 	g.line(0, "n0 := "+g.numLit())
 	g.line(0, "n1 := "+g.numLit())
 	g.line(0, `s0 := "ab"`)
@@ -404,45 +453,50 @@ func semGlobalsCanon(dump string) (map[string]string, error) {
 
 // ---------- one case ----------
 
-func c16SemTie(src string, r *Result, execModel, semModel *Model) {
-	in := map[string]any{"program": src, "stream": "sem-tie"}
+// stream "sem-tie": exec_l on psfrag; stream "sem-tie-locals": lx_l (block scopes) on lpfrag
+func c16SemTie(stream, src string, r *Result, execModel, semModel *Model) {
+	in := map[string]any{"program": src, "stream": stream}
+	tag, semName, fragName := "exec", "exec_l", "psfrag"
+	if stream == "sem-tie-locals" {
+		tag, semName, fragName = "lexec", "lx_l", "lpfrag"
+	}
 	c := c17Compile(src)
 	if c.ParseErr != "" {
-		r.Dist("sem-tie:generator-parse-error")
-		if r.Distribution["sem-tie:generator-parse-error"] <= 3 {
-			r.Note("sem-tie: generated program rejected by the parser (%s): %q", c.ParseErr, src)
+		r.Dist(stream + ":generator-parse-error")
+		if r.Distribution[stream+":generator-parse-error"] <= 3 {
+			r.Note(stream+": generated program rejected by the parser (%s): %q", c.ParseErr, src)
 		}
 		return
 	}
-	ans, err := execModel.AskT("(exec 200000 "+astProgram(c.prog)+")", 20*time.Second)
+	ans, err := execModel.AskT("("+tag+" 200000 "+astProgram(c.prog)+")", 20*time.Second)
 	if err != nil {
 		if err == ErrModelTimeout {
-			r.Dist("sem-tie:model-timeout")
+			r.Dist(stream + ":model-timeout")
 			return
 		}
-		r.Violate(Violation{Kind: "correspondence", Key: "sem-tie:model-crash", Detail: err.Error(), Input: in})
+		r.Violate(Violation{Kind: "correspondence", Key: stream + ":model-crash", Detail: err.Error(), Input: in})
 		return
 	}
 	mx, err := ParseSX(ans)
 	if err != nil || mx.Kind != "lst" || len(mx.L) < 1 {
-		r.Violate(Violation{Kind: "correspondence", Key: "sem-tie:model-output", Detail: ans, Input: in})
+		r.Violate(Violation{Kind: "correspondence", Key: stream + ":model-output", Detail: ans, Input: in})
 		return
 	}
 	class := mx.L[0].S
 	if class == "outside" {
 		// the generator left psfrag: a harness defect, not a property violation — but never silent
-		r.Violate(Violation{Kind: "correspondence", Key: "sem-tie:generator-outside-fragment",
-			Detail: "the fragment generator produced a program outside psfrag", Input: in})
+		r.Violate(Violation{Kind: "correspondence", Key: stream + ":generator-outside-fragment",
+			Detail: "the fragment generator produced a program outside " + fragName, Input: in})
 		return
 	}
 	d := SemCompare(semModel, src, SemOpts{StopAt: -1, YieldBudget: 2_000_000, Fuel: 200000}, false)
 	if d.Skipped == "parse-error" || d.Skipped == "budget" || len(d.Impl.Phases) == 0 {
-		r.Dist("sem-tie:skipped:" + d.Skipped)
+		r.Dist(stream + ":skipped:" + d.Skipped)
 		return
 	}
 	impl := d.Impl.Phases[0]
 	r.Count(src, strings.Contains(src, "for ") || strings.Contains(src, "while "))
-	r.Dist("sem-tie:exec-" + class + "/eval-" + impl.Class)
+	r.Dist(stream + ":exec-" + class + "/eval-" + impl.Class)
 	declared := map[string]bool{}
 	for _, st := range c.prog.Statements {
 		if ds, ok := st.(*parser.InferredDeclStmt); ok {
@@ -451,8 +505,8 @@ func c16SemTie(src string, r *Result, execModel, semModel *Model) {
 	}
 	if class == "undefined" {
 		if impl.Class == "ok" {
-			r.Violate(Violation{Kind: "correspondence", Key: "sem-tie:undefined-but-evaluator-ok",
-				Detail: "exec_l (CompileSem.v) is undefined with fuel 200000 on a program the evaluator finishes without error",
+			r.Violate(Violation{Kind: "correspondence", Key: stream + ":undefined-but-evaluator-ok",
+				Detail: semName + " (CompileSem.v) is undefined with fuel 200000 on a program the evaluator finishes without error",
 				Input:  in, Impl: impl.Class, Model: ans})
 		} else {
 			r.Validated++
@@ -461,8 +515,8 @@ func c16SemTie(src string, r *Result, execModel, semModel *Model) {
 	}
 	// exec_l is defined: the evaluator must finish without error, with the same globals
 	if impl.Class != "ok" {
-		r.Violate(Violation{Kind: "correspondence", Key: "sem-tie:defined-but-evaluator-" + strings.SplitN(impl.Class, ":", 2)[0],
-			Detail: "exec_l (CompileSem.v) is defined but the evaluator ended with " + impl.Class, Input: in, Impl: impl.Class, Model: ans})
+		r.Violate(Violation{Kind: "correspondence", Key: stream + ":defined-but-evaluator-" + strings.SplitN(impl.Class, ":", 2)[0],
+			Detail: semName + " (CompileSem.v) is defined but the evaluator ended with " + impl.Class, Input: in, Impl: impl.Class, Model: ans})
 		return
 	}
 	eg := map[string]string{}
@@ -472,13 +526,13 @@ func c16SemTie(src string, r *Result, execModel, semModel *Model) {
 	cmp := func(side, dump string) bool {
 		gs, err := semGlobalsCanon(dump)
 		if err != nil {
-			r.Violate(Violation{Kind: "correspondence", Key: "sem-tie:dump-unparsable", Detail: err.Error(), Input: in})
+			r.Violate(Violation{Kind: "correspondence", Key: stream + ":dump-unparsable", Detail: err.Error(), Input: in})
 			return false
 		}
 		for name := range declared {
 			if gs[name] != eg[name] {
-				r.Violate(Violation{Kind: "correspondence", Key: "sem-tie:exec-vs-" + side,
-					Detail: fmt.Sprintf("global %s: exec_l (CompileSem.v) has %s, the %s has %s", name, eg[name], side, gs[name]),
+				r.Violate(Violation{Kind: "correspondence", Key: stream + ":exec-vs-" + side,
+					Detail: fmt.Sprintf("global %s: %s (CompileSem.v) has %s, the %s has %s", name, semName, eg[name], side, gs[name]),
 					Input:  in, Impl: gs[name], Model: eg[name]})
 				return false
 			}
@@ -491,14 +545,14 @@ func c16SemTie(src string, r *Result, execModel, semModel *Model) {
 	switch {
 	case d.Diff != "":
 		// Sem.v and the evaluator differ: reported by the properties that own that correspondence; noted here
-		r.Dist("sem-tie:semmodel-differs-from-evaluator")
+		r.Dist(stream + ":semmodel-differs-from-evaluator")
 	case d.Skipped != "":
-		r.Dist("sem-tie:semmodel-skipped:" + strings.SplitN(d.Skipped, ":", 2)[0])
+		r.Dist(stream + ":semmodel-skipped:" + strings.SplitN(d.Skipped, ":", 2)[0])
 	case len(d.Model) > 0:
 		if !cmp("evaluator-model", d.Model[0].Globals) {
 			return
 		}
-		r.Dist("sem-tie:semmodel-compared")
+		r.Dist(stream + ":semmodel-compared")
 	}
 	r.Validated++
 }
